@@ -408,16 +408,23 @@ def _place_rings_ordered(rng, ast, nrings, max_open, allow_in_unit):
     marker_of = {}
     for it in order:
         spec = []
+        closed_here = []
         for k, (a, b, s) in enumerate(pairs):
             if b is it and k in marker_of:
                 v, mk = marker_of.pop(k)
                 # the closing side may be written with another spelling of the same number
                 spec.append([None, mk])
                 del open_[v]
+                closed_here.append(v)
         for k, (a, b, s) in enumerate(pairs):
             if a is it and len(open_) < max_open:
                 while True:
-                    if rng.random() < 0.3:
+                    if closed_here and rng.random() < 0.5:
+                        # close-then-reopen: the ring id that was just closed behind this node is used again
+                        # behind the same node (two rings sharing a node), in any spelling of the number
+                        v = rng.choice(closed_here)
+                        mk = rng.choice([str(v)] if v > 9 else [str(v), str(v), '%0' + str(v)]) if v <= 9 else '%' + str(v)
+                    elif rng.random() < 0.3:
                         v = rng.choice([rng.randint(10, 99), rng.randint(100, 130), rng.randint(0, 9)])
                         mk = '%' + (str(v) if rng.random() < 0.8 else '0' + str(v))
                     else:
@@ -532,7 +539,7 @@ def _sym_slots(chain, slots, with_ms):
 
 
 def enum_asts(max_nodes=3, syms=(None, '='), max_sym_slots=None, max_rings=1, markers=('1', '%10'),
-              ring_syms=(None, '='), node_mults=(), branch_mults=(), max_mults=1, max_depth=3, max_branches=2):
+              ring_syms=(None, '='), node_mults=(), branch_mults=(), max_mults=1, max_depth=3, max_branches=2, reuse=()):
     """every AST with up to max_nodes items (names A, B, C… in order of appearance), every assignment of
     `syms` to the symbol positions, up to max_rings ring bonds between non-adjacent node pairs (each
     marker spelling, each ring symbol), up to max_mults multipliers from node_mults / branch_mults.
@@ -553,7 +560,7 @@ def enum_asts(max_nodes=3, syms=(None, '='), max_sym_slots=None, max_rings=1, ma
                 for ch in choices:
                     for (obj, key), s in zip(slots, ch):
                         obj[key] = s
-                    for ringed in _with_rings(mshape, max_rings, markers, ring_syms):
+                    for ringed in _with_rings(mshape, max_rings, markers, ring_syms, reuse):
                         if wf(ringed) is None:
                             yield ringed
 
@@ -573,16 +580,16 @@ def _with_mults(shape, node_mults, branch_mults, max_mults):
                     allpos[c][0]['m'] = None
 
 
-def _with_rings(ast, max_rings, markers, ring_syms):
+def _with_rings(ast, max_rings, markers, ring_syms, reuse=()):
     yield copy.deepcopy(ast)
-    if max_rings < 1:
+    if max_rings < 1 and not reuse:
         return
     units, nbrs, order = _units(ast)
     n = len(order)
     pairs = [(i, j) for i in range(n) for j in range(i + 1, n)
              if id(order[j]) not in nbrs[id(order[i])] and order[i]['m'] is None and order[j]['m'] is None
              and units[id(order[i])] == units[id(order[j])]]
-    for (i, j) in pairs:
+    for (i, j) in (pairs if max_rings >= 1 else []):
         for mk in markers:
             for s in ring_syms:
                 a = copy.deepcopy(ast)
@@ -590,6 +597,22 @@ def _with_rings(ast, max_rings, markers, ring_syms):
                 o[i]['r'].append([s, mk])
                 o[j]['r'].append([None, mk])
                 yield a
+    for (mc, mo, mz) in reuse:
+        # two rings sharing a node with the SAME ring id: closed (spelling mc) and reopened (spelling mo, every ring
+        # symbol) behind the shared node, closed again with spelling mz
+        for (i, j) in pairs:
+            for (j2, k) in pairs:
+                if j2 != j:
+                    continue
+                for s in ring_syms:
+                    a = copy.deepcopy(ast)
+                    o = list(items_in_order(a))
+                    o[i]['r'].append([None, mc])
+                    o[j]['r'].append([None, mc])
+                    o[j]['r'].append([s, mo])
+                    o[k]['r'].append([None, mz])
+                    if wf(a) is None and 'error' not in denote_rings_only(a):
+                        yield a
     if max_rings >= 2:
         for (p1, p2) in itertools.combinations(pairs, 2):
             for m1, m2 in itertools.permutations(markers, 2):
